@@ -511,7 +511,7 @@ func parseObjectTransformation(p *parser, t token) (Node, error) {
 		p.consume(typeComma, true)
 		deletes = p.parseExpression(0)
 	}
-	p.consume(typePipe, true)
+	p.consume(typePipe, false)
 
 	return &ObjectTransformationNode{
 		Pattern: pattern,
@@ -1072,7 +1072,7 @@ func parseLambdaDefinition(p *parser, shorthand bool) (Node, error) {
 
 	p.consume(typeBraceOpen, true)
 	body := p.parseExpression(0)
-	p.consume(typeBraceClose, true)
+	p.consume(typeBraceClose, false)
 
 	lambda := &LambdaNode{
 		Body:       body,
@@ -1652,7 +1652,7 @@ func parseSort(p *parser, t token, lhs Node) (Node, error) {
 		p.consume(typeComma, true)
 	}
 
-	p.consume(typeParenClose, true)
+	p.consume(typeParenClose, false)
 
 	return &SortNode{
 		Expr:  lhs,
